@@ -80,6 +80,17 @@ fn branch(rng: &mut Rng, fd: bool, tag_base: u32) -> Vec<G> {
             return b;
         }
     }
+    if rng.chance(1, 6) {
+        // the branch is a conjunction that STARTS (or continues) with a nested disjunction written
+        // with the same keyword; the goals after it belong to every alternative of the nested one
+        let x = xv(rng);
+        let k = 2 + rng.below(2);
+        let nested = G::Conde((0..k).map(|_| vec![G::Eq(x.clone(), small(rng))]).collect());
+        if rng.chance(1, 3) {
+            b.push(G::Eq(xv(rng), small(rng)));
+        }
+        b.push(nested);
+    }
     for _ in 0..n {
         let g = match rng.below(if fd { 9 } else { 8 }) {
             0 | 1 => G::Eq(xv(rng), small(rng)),
@@ -149,7 +160,7 @@ impl Check for C10 {
         vec![GenSpec { name: "fd", quick: 5000, thorough: 300_000 }, GenSpec { name: "tree", quick: 5000, thorough: 300_000 }, GenSpec { name: "fixed", quick: 3, thorough: 3 }]
     }
     fn rule(&self) -> &'static str {
-        "Programs `prefix, conde { A, B [, C] }, suffix` over 4 query variables. 'fd': the prefix gives all variables the domain 0..=3 and posts distinctfd / ltefd+plusfd / diseqfd constraints, so both branches wake the SAME constraint objects (incl. DistinctFd2Constraint, which updates itself through Rc::make_mut); 'tree': prefix of disequalities and a plusz. Branches of 1-4 goals: bindings, aliasing, member with 2-4 answers (so states of different branches are alive at the same time), further constraints, user-state updates (probe tags), each ending in a probe; occasionally a statically succeeding branch (`true`), a statically failing one, or a dfs { cond { } } block as a branch; optional suffix goal shared by all branches. Monitors: (1) the answers of the combined program must equal, as a multiset, the union of the answers of `prefix, A, suffix`, `prefix, B, suffix`, ... run separately (real vs real); (2) M-snap: a clone of the state is retained at every probe with an order-insensitive fingerprint of substitution, constraint store incl. constraint internals, domain store and user state, and is re-fingerprinted after the whole search has finished: it must not have changed; (3) every final state's probe-tag trail must be the trail of exactly one branch (compared with the reference interpreter's trails). Distinct = distinct program text; non-trivial = at least two branches reach a probe."
+        "Programs `prefix, conde { A, B [, C] }, suffix` over 4 query variables. 'fd': the prefix gives all variables the domain 0..=3 and posts distinctfd / ltefd+plusfd / diseqfd constraints, so both branches wake the SAME constraint objects (incl. DistinctFd2Constraint, which updates itself through Rc::make_mut); 'tree': prefix of disequalities and a plusz. Branches of 1-4 goals: bindings, aliasing, member with 2-4 answers (so states of different branches are alive at the same time), further constraints, user-state updates (probe tags), each ending in a probe; occasionally a statically succeeding branch (`true`), a statically failing one, a dfs { cond { } } block as a branch, or a branch that starts with a nested conde followed by further goals; optional suffix goal shared by all branches. Monitors: (1) the answers of the combined program must equal, as a multiset, the union of the answers of `prefix, A, suffix`, `prefix, B, suffix`, ... run separately (real vs real); (2) M-snap: a clone of the state is retained at every probe with an order-insensitive fingerprint of substitution, constraint store incl. constraint internals, domain store and user state, and is re-fingerprinted after the whole search has finished: it must not have changed; (3) every final state's probe-tag trail must be the trail of exactly one branch (compared with the reference interpreter's trails). Distinct = distinct program text; non-trivial = at least two branches reach a probe."
     }
     fn assumptions(&self) -> Vec<String> {
         vec!["fingerprints rely on the derived Debug output of constraints (covers DistinctFd2Constraint's y and n fields)".into(), "tag trails are compared with pvmon::refsem".into()]
